@@ -18,6 +18,7 @@ def params : Params := {
   minWire := [(2, 1), (3, 1), (6, 2), (8, 4), (10, 8), (4, 8), (11, 4), (12, 1), (13, 6), (14, 5), (15, 5)]
   skipDepth := 64
   skipFixed := [(2, 1), (3, 1), (4, 8), (6, 2), (8, 4), (10, 8)]
+  skipRecovers := true
   blockSize := 2048
   directDiv := 8
   bsWords := 1024
